@@ -22,6 +22,11 @@ from harness import common
 from harness import textlib as tl
 
 
+# physical reference, independent of the code's table: units per Ångström (CODATA Bohr radius 0.529177210903 Å)
+UNIT_REF = {"A": 1.0, "Angstrom": 1.0, "Bohr": 1.0 / 0.529177210903, "au": 1.0 / 0.529177210903,
+            "fm": 1.0e5, "pm": 100.0, "nm": 0.1}
+
+
 def gen_geom_spec(rng, en, max_atoms: int, specials: bool) -> dict:
     n = min(rng.weighted([(0, 1), (1, 2), (2, 3), (4, 3), (7, 2), (max_atoms, 1)]), max_atoms)
     common_e = [en.ei[en.Element[s]] for s in ("C", "N", "O", "H", "Unknown", "Cl", "Og", "He")]
@@ -190,12 +195,17 @@ def run(ctx):
             ctx.case({"unit": name, "geom": g}, nontriv(g))
             ctx.count(f"unit={name}")
             replay = {"kind": "unit", "unit": name, "geom": g}
-            # the same geometry expressed in unit `name`
+            # the same geometry expressed in unit `name` — by the PHYSICAL size of the unit, not by the code's table
+            ref = UNIT_REF.get(name)
+            if ref is None:
+                ctx.count("unit_without_reference")
+                ref = val
             gu = json.loads(json.dumps(g))
             for a in gu["atoms"]:
                 for k in "xyz":
-                    a[k] = a[k] * val
-            tol = lambda x, val=val: 1e-6 / val + 1e-9 * abs(x)   # written precision in the unit, in Å
+                    a[k] = a[k] * ref
+            # written precision in the unit, in Å, plus the 6 significant digits the table gives for Bohr
+            tol = lambda x, ref=ref: 1e-6 / ref + 1e-5 * abs(x)
             obj = build_geom(en, gu, ml.Molecule)
             # --- xyz
             text = obj.dumps_xyz()
